@@ -355,6 +355,10 @@ where
                     context.response.set_rcode(Rcode::SERVFAIL);
                     return;
                 }
+                // The OPT TTL field carries the extended RCODE, EDNS
+                // version, and flags. It is not a TTL, so we must read
+                // the raw field rather than an RFC 2181-clamped Ttl.
+                let opt_ttl_field = peek_rr.raw_ttl();
                 let opt_rr = match peek_rr.parse() {
                     Ok(opt_rr) => opt_rr,
                     Err(_) => {
@@ -373,7 +377,7 @@ where
                     context.response.set_limit(negotiated_limit as usize);
                 }
 
-                if let Some(rcode) = validate_opt(&opt_rr) {
+                if let Some(rcode) = validate_opt(&opt_rr, opt_ttl_field) {
                     context
                         .response
                         .set_extended_rcode(rcode)
@@ -580,7 +584,7 @@ impl<'c, 'b, C> Context<'c, 'b, C> {
 
 /// Validates an EDNS OPT record. If it's not valid, then the proper
 /// error RCODE for the response is returned.
-fn validate_opt(opt_rr: &ReadRr) -> Option<ExtendedRcode> {
+fn validate_opt(opt_rr: &ReadRr, opt_ttl_field: u32) -> Option<ExtendedRcode> {
     // The formatting of the OPT RDATA was already validated when we
     // parsed it, and since we currently don't support any EDNS options,
     // we ignore any sent to us (per RFC 6891 § 6.1.2). What remains is
@@ -588,7 +592,7 @@ fn validate_opt(opt_rr: &ReadRr) -> Option<ExtendedRcode> {
     if !opt_rr.owner.is_root() {
         Some(ExtendedRcode::FORMERR)
     } else {
-        let edns_version = (u32::from(opt_rr.ttl) >> 16) as u8;
+        let edns_version = (opt_ttl_field >> 16) as u8;
         if edns_version != 0 {
             Some(ExtendedRcode::BADVERSBADSIG)
         } else {
